@@ -466,6 +466,24 @@ func corpus(out *cq.Out) {
 			feed(tb, 0, 2000, 2003), feed(ta, 0, 104, 106, ins(2, 105)), feed(tb, 0, 2003, 2004), feed(ta, 0, 106, 107)},
 			"corpus: more downstream than source channels, two source streams on one downstream channel (trace check only)")
 	}
+	// a partition is registered as dropped while its handler is busy with a pack that another handler forwarded to it: the pack the
+	// handler then generates must be handled like a pack of its own streams (re-addressed, counted by the barrier), not like a
+	// forwarded one
+	fa := &coll{id: 1, tid: 9001, name: "c1", src: [][2]string{{"src-dml_0_1v0", "src-dml_0"}}, tgt: [][2]string{{"tgt-dml_0_9001v0", "tgt-dml_0"}},
+		parts: map[string]int64{"_default": 900100, "p1": 900101}, seek: map[string]uint64{"src-dml_0": 50}}
+	fb := &coll{id: 2, tid: 9002, name: "c2", src: [][2]string{{"src-dml_1_2v0", "src-dml_1"}}, tgt: [][2]string{{"tgt-dml_1_9002v0", "tgt-dml_1"}}, parts: map[string]int64{"_default": 900200}}
+	fc := &coll{id: 3, tid: 9003, name: "c3", src: [][2]string{{"src-dml_1_3v0", "src-dml_1"}}, tgt: [][2]string{{"tgt-dml_0_9003v0", "tgt-dml_0"}}, parts: map[string]int64{"_default": 900300}}
+	i3 := func(id uint64, ts uint64) smsg {
+		return smsg{kind: "insert", id: id, coll: 3, part: 300, pname: "_default", ts: ts, rows: 1}
+	}
+	fwdFeed := feed(fc, 0, 3000, 3003, i3(2, 3002))
+	fwdFeed.parkFwd = true
+	runCase(out, 1, []label{{kind: "start", c: fa}, {kind: "start", c: fb}, {kind: "start", c: fc}, feed(fa, 0, 100, 103, ins(1, 102)),
+		fwdFeed, {kind: "addpart", c: fa, pid: 101, pname: "p1", dropped: true}, {kind: "resumets", begin: 3000, ngen: 1},
+		label{kind: "feed", virtual: true, c: fa, spch: "src-dml_0", svch: "src-dml_0_1v0", begin: 50, end: 50, nstart: 1,
+			msgs: []smsg{{kind: "droppart", id: genDropPartID(9001, "p1"), coll: 1, part: 101, pname: "p1", ts: 50, pospch: true}}},
+		feed(fa, 0, 103, 106, ins(3, 105))},
+		"corpus: a handler generates a drop-partition pack while it is busy with a forwarded pack")
 	// a two-shard collection dropped upstream while CDC was down: the task resumes from saved positions, the catalog lists the
 	// collection as dropped and the downstream still has it: every shard handler generates the drop-collection message: one request
 	c1b := &coll{id: 2, tid: 9002, name: "c2", src: [][2]string{{"src-dml_0_2v0", "src-dml_0"}}, tgt: [][2]string{{"tgt-dml_0_9002v0", "tgt-dml_0"}}, parts: map[string]int64{"_default": 900200}}
